@@ -56,6 +56,7 @@ package sm4
 //@   (ensures len (=> (= (len in) (len iv)) (and (= (len out) (len in)) (fresh-obj out))))
 //@   (ensures content (=> (= (len in) (len iv))
 //@       (forall ((j B64)) (=> (bvult j (len in)) (= (at out j) (bvxor (at in j) (at iv j)))))))
+//@   (ensures block (=> (and (= (len in) 16) (= (len iv) 16)) (= (blk128 out) (bvxor (old (blk128 in)) (old (blk128 iv))))))
 //@   (loop 1
 //@     (invariant range (and (bvsle 0 i) (bvsle i (len in))))
 //@     (invariant done (forall ((j B64)) (=> (bvult j i) (= (at out j) (bvxor (at in j) (at iv j))))))
@@ -186,20 +187,53 @@ package sm4
 //@             (sm4.dec (MK) (blk.at (old (row in)) (bvadd (off in) (bvmul 16 k))))))))
 //@     (decreases (bvsub (bvsdiv (len inData) 16) i))))
 
+// CBC (GB/T 17964): C_0 = E(P_0 xor IV), C_k = E(P_k xor C_{k-1}); P_0 = D(C_0) xor IV, P_k = D(C_k) xor C_{k-1} - stated as a
+// recurrence over the blocks of the output (encryption) and of the input (decryption).
+//@ (defmacro IVV () (old (blk128 (global "sm4.IV"))))
+//@ (defmacro oblk (k) (blk.at (row out) (bvadd (off out) (bvmul 16 k))))
+//@ (defmacro iblk (k) (blk.at (old (row in)) (bvadd (off in) (bvmul 16 k))))
+//@ (defmacro cbcD (k) (cbc.dec (MK) (IVV) (old (row in)) (off in) k))
+//@ (defmacro cbcE (k) (cbc.enc (MK) (IVV) (old (row in)) (off in) (len in) k))
 //@ (func Sm4Cbc
-//@   (uses "sm4" "sm4:keyed" "modes")
+//@   (uses "sm4" "sm4:keyed" "modes" "modesm4")
 //@   (requires ivlen (= (len (global "sm4.IV")) 16))
 //@   (ensures keylen (=> (not (= (len key) 16)) (and (isnil out) (not (isnil err)))))
 //@   (ensures noerr (=> (= (len key) 16) (isnil err)))
 //@   (ensures enclen (=> (and (= (len key) 16) mode) (= (len out) (bvadd (len in) (pkcs7.padlen (len in))))))
+//@   (ensures enc (=> (and (= (len key) 16) mode)
+//@       (forall ((k B64)) (=> (bvult k (bvudiv (len out) 16)) (= (oblk k) (cbcE k))))))
+//@   (ensures dec (=> (and (= (len key) 16) (not mode) (not (isnil out)))
+//@       (forall ((k B64)) (=> (bvult k (bvudiv (len out) 16))
+//@          (= (oblk k) (cbcD k))))))
 //@   (loop 1
 //@     (invariant range (and (bvsle 0 i) (bvsle i (bvsdiv (len inData) 16))))
 //@     (invariant ivlen (= (len iv) 16))
+//@     (invariant keys (keysinv))
+//@     (apply (extfact false))
+//@     (invariant chain (= (blk128 iv) (ite (= i 0) (IVV) (cbcE (bvsub i 1)))))
+//@     (invariant done (forall ((k B64)) (=> (bvult k i) (= (oblk k) (cbcE k)))))
+//@     (unfold (cbc.enc (MK) (IVV) (old (row in)) (off in) (len in) i))
+//@     (assert input (= (blk128 in_tmp) (bvxor (pkcs7.blk (old (row in)) (off in) (len in) i) (blk128 iv))))
+//@     (assert cipher (= (blk128 out_tmp) (sm4.enc (MK) (blk128 in_tmp))))
+//@     (assert stored (= (oblk i) (blk128 out_tmp)))
+//@     (assert new (= (oblk i) (cbcE i)))
+//@     (assert kept (forall ((k B64)) (=> (bvult k i) (= (oblk k) (cbcE k)))))
 //@     (decreases (bvsub (bvsdiv (len inData) 16) i)))
 //@   (loop 2
 //@     (invariant range (and (bvsle 0 i) (bvsle i (bvsdiv (len inData) 16))))
+//@     (invariant keys (keysinv))
+//@     (apply (extfact true))
 //@     (invariant zeros (forall ((a B64)) (=> (bvuge (bvsub a (off out)) (bvmul 16 i)) (= (select (row out) a) #x00))))
 //@     (invariant ivlen (= (len iv) 16))
+//@     (invariant chain (= (blk128 iv) (ite (= i 0) (IVV) (iblk (bvsub i 1)))))
+//@     (invariant done (forall ((k B64)) (=> (bvult k i)
+//@          (= (oblk k) (cbcD k)))))
+//@     (assert input (= (blk128 in_tmp) (iblk i)))
+//@     (assert cipher (= (blk128 out_tmp) (bvxor (sm4.dec (MK) (iblk i)) (ite (= i 0) (IVV) (iblk (bvsub i 1))))))
+//@     (assert stored (= (oblk i) (blk128 out_tmp)))
+//@     (assert new (= (oblk i) (cbcD i)))
+//@     (assert kept (forall ((k B64)) (=> (bvult k i)
+//@          (= (oblk k) (cbcD k)))))
 //@     (decreases (bvsub (bvsdiv (len inData) 16) i))))
 
 //@ (func Sm4CFB
